@@ -146,6 +146,65 @@ def generic_orders(chk):
     chk.extra["generic_order_events"] = len(idx)
 
 
+def user_names(chk):
+    """MC_C05_names: a user type whose declared name a naming option re-spells, referenced from every position of a type expression.
+    cfg.renames carries the name the declaration is OBSERVED under (the definition with the member `marker_decl`), so TypeExpr!Conf
+    says: every reference uses the name of the declaration."""
+    res = common.run_tlc("MC_C05_names", cfg="MC_C05_names", workers=2, timeout=300)
+    chk.add_tlc("MC_C05_names", res)
+    if not res.replays:
+        raise ToolError("MC_C05_names produced no cases")
+    S = {"k": "prim", "n": "String"}
+    mk = {"direct": lambda u: u, "vec": lambda u: {"k": "vec", "e": u}, "option": lambda u: {"k": "option", "e": u},
+          "map_key": lambda u: {"k": "map", "key": u, "val": S}, "map_val": lambda u: {"k": "map", "key": S, "val": u},
+          "gen_only": lambda u: {"k": "user", "n": "Wrapper", "args": [u]}, "gen_first": lambda u: {"k": "user", "n": "Pair", "args": [u, S]},
+          "gen_last": lambda u: {"k": "user", "n": "Pair", "args": [S, u]},
+          "nested": lambda u: {"k": "vec", "e": {"k": "map", "key": u, "val": {"k": "vec", "e": u}}}}
+    runs = {"none": (common.LANGS, None, ""), "serde_rename": (common.LANGS, None, ""),
+            "go_acronyms": (["go"], {"go": {"uppercase_acronyms": ["ID", "URL", "API"]}}, ""),
+            "prefix": (["swift", "kotlin"], {"swift": {"prefix": "Pre"}, "kotlin": {"prefix": "Pre"}}, "Pre")}
+    events, meta = [], []
+    for naming, (langs, cfgs, prefix) in runs.items():
+        cases = [c for c in res.replays if c["naming"] == naming]
+        srcs = []
+        for c in cases:
+            tree = mk[c["pos"]]({"k": "user", "n": c["name"], "args": []})
+            ren = f'#[serde(rename = "{c["name"]}Dto")]\n' if naming == "serde_rename" else ""
+            srcs.append(f"#[typeshare]\n{ren}pub struct {c['name']} {{ pub marker_decl: u32 }}\n#[typeshare]\npub struct Wrapper<T> {{ pub w: T }}\n"
+                        f"#[typeshare]\npub struct Pair<A, B> {{ pub a: A, pub b: B }}\n"
+                        f"#[typeshare]\npub struct Host {{\n    pub f: {typecases.rust_text(tree)},\n    pub keep: u32,\n}}\n")
+        for c, src, per in zip(cases, srcs, observe.generate(srcs, langs=langs, cfgs=cfgs)):
+            tree = mk[c["pos"]]({"k": "user", "n": c["name"], "args": []})
+            for lang in langs:
+                r = per[lang]
+                if r["status"] != "ok":
+                    continue          # refused by the backend, unreadable (C10) or a panic (C07)
+                decl = [d for d in r["obs"]["defs"] if any(m.get("key") == "marker_decl" for m in d.get("members", []))]
+                host = observe.find_def(r["obs"], prefix + "Host", "Host")
+                f = [m for m in (host or {}).get("members", []) if m["key"] == "f"]
+                if len(decl) != 1 or not f:
+                    events.append(None)
+                    meta.append((lang, f"names:{naming}", "field", tree, None, src, "position-missing", 0))
+                    continue
+                declared = decl[0]["name"]
+                declared = declared[len(prefix):] if prefix and declared.startswith(prefix) else declared
+                events.append({"lang": lang, "pos": "field", "rust": tree, "default": False, "optional": bool(f[0]["optional"]), "ty": f[0]["ty"],
+                               "prefix": prefix, "mapping": {}, "aliases": typecases.aliases_of(r["obs"]), "vecu8": "", "noptr": False,
+                               "renames": {c["name"]: declared}})
+                meta.append((lang, f"names:{naming}", c, tree, declared, src, None, 0))
+    idx, rejected = validate(chk, events, meta, "Trace_C05", "user-type-names")
+    for i in idx:
+        e, m = events[i], meta[i]
+        chk.judged((e["lang"], m[1], m[2]["name"], m[2]["pos"]))
+        if i in rejected:
+            what = name_event(e, set())
+            if isinstance(what, str) and what.startswith("option-lost"):
+                continue                 # the listed TypeScript finding (Option under a container), judged by the main enumeration
+            chk.mismatch(f"C05/{m[0]}/{m[1]}/pos={m[2]['pos']}/reference-name!=declared-name", f"{m[0]} ({m[1]}): type {m[2]['name']} is declared as "
+                         f"`{m[4]}`, a reference in position {m[2]['pos']} is written {e['ty']}", {"src": m[5], "lang": m[0], "case": m[2]}, "TypeExpr!Conf", e["ty"])
+    chk.extra["user_name_events"] = len(idx)
+
+
 def run(chk):
     thorough = chk.tier == "thorough"
     chk.rule = ("spec->impl: every Rust type expression to depth " + ("3" if thorough else "2") + " (MC_C05) x positions {field, struct-variant field, newtype "
@@ -202,11 +261,13 @@ def run(chk):
                          "TypeExpr!Conf", e["ty"])
     chk.extra["trace_events"] = len(idx)
     generic_orders(chk)
+    user_names(chk)
 
 
 def replay(chk, rec):
     if "src" in rec["case"]:
         generic_orders(chk)
+        user_names(chk)
         chk.mismatches = {k: v for k, v in chk.mismatches.items() if k == rec["signature"]}
         return
     c = rec["case"]
